@@ -551,6 +551,9 @@ where
                         if self.options.transform_on
                             && (attr_name == "on" || attr_name == "nativeOn")
                         {
+                            // the listener keys are only known at runtime
+                            has_dynamic_keys = true;
+
                             // keep source order: attributes written before come first
                             if !props.is_empty() {
                                 merge_args.push(Expr::Object(ObjectLit {
